@@ -119,6 +119,27 @@ def build(spec):
         quick = spec["tier"] == "quick"
         return {"argv": flags, "blocks": [AJ.items_to_text(b, 2) for b in blocks], "peers": PEERS[:9] if quick else PEERS,
                 "max_len": 8 if quick else 12, "greedy": False}
+    if len(FAMILIES) <= i < len(FAMILIES) + 8:
+        # deterministic sweep over the *order shapes*: two order-dependent accesses whose second one finds its operands on top
+        # of the initial stack (so the reversed order is a short program too), padded with neutral swaps so that the length bound
+        # has room; with the position bounds enabled and disabled, both memory encodings
+        k = i - len(FAMILIES)
+        flags = [f for f in flags if f not in ("-storage", "-partition", "-push-basic", "-order-bounds", "-no-simplification")]
+        while "-memory-encoding" in flags:
+            j = flags.index("-memory-encoding")
+            del flags[j:j + 2]
+        flags += ["-memory-encoding", "direct" if k % 4 < 2 else "l_vars"] + (["-order-bounds"] if k % 2 == 0 else [])
+        pad = [("SWAP1", None), ("SWAP1", None)]
+        blocks = []
+        for ld, st in (("MLOAD", "MSTORE"), ("MLOAD", "MSTORE8"), ("SLOAD", "SSTORE")):
+            blocks.append([("SWAP2", None), (ld, None), ("SWAP2", None), (st, None)])                    # load, then a store on the top operands
+            blocks.append(pad + [(st, None), (ld, None)] + pad)                                               # store, then a load
+            blocks.append(pad + [(st, None), (st, None)] + pad)                                               # two stores
+        blocks.append([("SWAP3", None), ("SWAP1", None), ("SWAP2", None), ("KECCAK256", None), ("SWAP2", None), ("MSTORE", None)])
+        blocks.append(pad + [("MSTORE", None), ("KECCAK256", None)] + pad)
+        quick = spec["tier"] == "quick"
+        return {"argv": flags, "blocks": [AJ.items_to_text(b, 2) for b in blocks], "peers": PEERS[:9] if quick else PEERS,
+                "max_len": 10 if quick else 12, "greedy": False}
     conflict = i % 3 == 1          # every third task: ordering-constraint bait, half of it with the position bounds disabled
     if conflict and i % 2 == 1 and "-order-bounds" not in flags:
         flags.append("-order-bounds")
